@@ -105,27 +105,113 @@ def split_and(e):
     return out
 
 
-def add_debug_asserts(lines):
-    """dev aid: assert every top-level conjunct of every loop invariant before its loop"""
+def cpp_expand(exprs, label):
+    """expand the view macros of a list of expressions with gcc -E (debug aid)"""
+    src = ['#define __CPROVER_size_t unsigned long', '#include "abs_types.h"', '#include "view.h"', '#undef ENTRY',
+           '#define ENTRY(x) BG_ENTRY_MARK(x)', '#undef OLD', '#define OLD(x) __CPROVER_old(x)']
+    for k, e in enumerate(exprs):
+        src.append('BGX%d: %s' % (k, e))
+    r = subprocess.run(['gcc', '-E', '-P', '-x', 'c', '-DBG_L=%s' % label, '-I', os.path.join(ROOT, 'shim'),
+                        '-I', os.path.join(ROOT, 'contracts'), '-'], input='\n'.join(src), stdout=subprocess.PIPE,
+                       stderr=subprocess.PIPE, text=True)
+    out = {}
+    txt = r.stdout
+    for m in re.finditer(r'BGX(\d+): (.*?)(?=BGX\d+: |\Z)', txt, re.S):
+        out[int(m.group(1))] = ' '.join(m.group(2).split())
+    return [out.get(k, e) for k, e in enumerate(exprs)]
+
+
+def split_and_deep(e):
+    """conjuncts, descending into a single enclosing pair of parentheses"""
     res = []
-    pending = []
-    i = 0
-    n = len(lines)
+    for c in split_and(e):
+        c = c.strip()
+        while c.startswith('(') and _matching(c) == len(c) - 1:
+            c = c[1:-1].strip()
+        sub = split_and(c)
+        if len(sub) > 1:
+            for x in sub:
+                res.extend(split_and_deep(x))
+        else:
+            res.append(c)
+    return res
+
+
+def _matching(c):
+    d = 0
+    for i, ch in enumerate(c):
+        d += (ch == '(') - (ch == ')')
+        if d == 0:
+            return i
+    return -1
+
+
+DEBUG_LABEL = ['NoLabel']
+
+
+def _entry_args(e):
+    """occurrences of BG_ENTRY_MARK(<balanced>) in e -> list of (start, end, arg)"""
+    out, i = [], 0
+    while True:
+        i = e.find('BG_ENTRY_MARK(', i)
+        if i < 0:
+            break
+        d, j = 1, i + 14
+        while j < len(e) and d:
+            d += (e[j] == '(') - (e[j] == ')')
+            j += 1
+        out.append((i, j, e[i + 14:j - 1]))
+        i = j
+    return out
+
+
+def add_debug_asserts(lines):
+    """dev aid: assert every conjunct (macros expanded) of every loop invariant before its loop
+    (DBG-BASE) and at the end of the loop body (DBG-STEP); loop-entry values snapshotted by hand"""
+    res = []
+    i, n = 0, len(lines)
+    snap_n = [0]
     while i < n:
         ln = lines[i]
         if re.match(r'^\s*(while \(|for \()', ln):
             j = i + 1
-            asserts = []
+            base, step, snaps = [], [], []
             while j < n and (lines[j].strip().startswith('__CPROVER_') or lines[j].strip().startswith('#')):
                 m = re.match(r'^\s*__CPROVER_loop_invariant\((.*)\) /\* (\S+)', lines[j])
                 if lines[j].strip().startswith('#'):
-                    asserts.append(lines[j])
+                    base.append(lines[j])
+                    step.append(lines[j])
                 if m:
-                    for c in split_and(m.group(1)):
-                        c2 = re.sub(r'\bENTRY\b', 'ID', c)
-                        asserts.append('__CPROVER_assert(%s, "DBG-BASE %s: %s");' % (c2, m.group(2), c.replace('"', "'")[:150]))
+                    expanded = cpp_expand([m.group(1)], DEBUG_LABEL[0])[0]
+                    for c in split_and_deep(expanded):
+                        msg = c.replace('"', "'").replace('\\', '')[:140]
+                        base.append('__CPROVER_assert(%s, "DBG-BASE %s: %s");' % (c.replace('BG_ENTRY_MARK', ''), m.group(2), msg))
+                        c2 = c
+                        for (s0, e0, arg) in reversed(_entry_args(c)):
+                            snap_n[0] += 1
+                            v = 'bg_dbg_entry_%d' % snap_n[0]
+                            snaps.append('__typeof__(%s) %s = %s;' % (arg, v, arg))
+                            c2 = c2[:s0] + v + c2[e0:]
+                        step.append('__CPROVER_assert(%s, "DBG-STEP %s: %s");' % (c2, m.group(2), msg))
                 j += 1
-            res.extend(asserts)
+            res.extend(snaps)
+            res.extend(base)
+            res.append(ln)
+            k = i + 1
+            while k < j:
+                res.append(lines[k])
+                k += 1
+            depth, k = 0, j
+            while k < n:
+                depth += lines[k].count('{') - lines[k].count('}')
+                if depth == 0:
+                    res.extend(step)
+                    res.append(lines[k])
+                    break
+                res.append(lines[k])
+                k += 1
+            i = k + 1
+            continue
         res.append(ln)
         i += 1
     return res
@@ -154,6 +240,7 @@ def gen_unit(gen_dir, index, specs, fname, prop, path, extra_harness='', debug=F
     for f in defined:
         text = open(os.path.join(gen_dir, 'fn', f + '.c')).read().rstrip('\n').split('\n')
         if debug:
+            DEBUG_LABEL[0] = label_of(fname)
             text = add_debug_asserts(text)
         start = len(L) + 1
         L.extend(text)
